@@ -80,6 +80,16 @@ func (ex *Exec) resolveType(s string) types.Type {
 	if s == "mathint" {
 		return untypedInt
 	}
+	if i := strings.Index(s, "."); i > 0 && !strings.ContainsAny(s, "[]*( ") {
+		for _, imp := range ex.prog.Pkg.Types.Imports() {
+			if imp.Name() == s[:i] {
+				if tn, ok := imp.Scope().Lookup(s[i+1:]).(*types.TypeName); ok {
+					ex.typeCache[s] = tn.Type()
+					return tn.Type()
+				}
+			}
+		}
+	}
 	tv, err := types.Eval(ex.prog.Fset, ex.prog.Pkg.Types, token.NoPos, s)
 	if err != nil {
 		efail("cannot resolve type %q: %v", s, err)
@@ -797,6 +807,11 @@ func (env *Env) evalCall(e *ECall) TV {
 			efail("isfresh of %s", x.V)
 		}
 		return TV{V: vBool(mkApp(">", r, ex.get(env.old, allocKey, SInt))), T: tBool}
+	case "timesub":
+		a := env.eval(e.Args[0])
+		b := env.eval(e.Args[1])
+		f := ex.sc.DeclareFun("time_sub", []Sort{SInt, SInt, SInt, SInt, SInt, SInt}, SInt)
+		return TV{V: vInt(mkApp(f, append(flatten(a.V), flatten(b.V)...)...)), T: untypedInt}
 	case "errmsg":
 		x := env.eval(e.Args[0])
 		if x.V.K != VIface {
